@@ -221,13 +221,15 @@ def rule_validate(ctx, ts):
         if isinstance(node, N.Assign) and isinstance(node.target, N.Name) and node.target.name == "cmp":
             f = tuple(e for e, pol in j2front.facts(stack) if pol)
             cmps[f[-1] if f else "?"] = xs(node.node)
-    ok = cmps.get("(t is FixedLengthArrayType)") == "'=='" and cmps.get("(t is VariableLengthArrayType)") == "'<='" and len(cmps) == 2
+    fx = [v for k, v in cmps.items() if "is FixedLengthArrayType" in k]
+    vr = [v for k, v in cmps.items() if "is VariableLengthArrayType" in k]
+    ok = fx == ["'=='"] and vr == ["'<='"] and len(cmps) == 2
     ctx.ob(R, t.rel, "assign_array: == for fixed-length, <= for variable-length arrays", ok, f"{cmps}", am.lineno)
     paths = j2text.render_paths(N, am.body, subst=lambda e: "<=" if xs(e) == "cmp" else None)
     for p in paths:
         tree = _parse(p, "assign_array")
         fid = p.name_of(FID)
-        cap = p.name_of("t.capacity")
+        cap = p.name_of("t.capacity") or p.name_of("f.data_type.capacity")   # `t` is an alias of f.data_type, resolved by the path renderer
         src = p.name_of("src")
         label = "assign_array" + (f" [{' & '.join(('' if pol else 'not ') + c for c, pol in p.conds if 'FixedLength' not in c and 'VariableLength' not in c)}]")
         asg = _backing_assigns(tree, "_" + fid) if fid else []
@@ -237,7 +239,9 @@ def rule_validate(ctx, ts):
         for st, g in asg:
             terms = pyfront.guard_terms(g)
             pos = [e.replace(" ", "") for e, pol in terms if pol]
-            okc = any((f"len({src})<={cap}" in e or f"{src}.size<={cap}" in e) for e in pos)
+            fixed = any("FixedLengthArrayType" in c and pol for c, pol in p.conds)
+            op = "==" if fixed else "<="     # the path renderer expands the `cmp` variable to the literal its branch set
+            okc = any((f"len({src}){op}{cap}" in e or f"{src}.size{op}{cap}" in e) for e in pos)
             ctx.ob(R, t.rel, f"{label}: `{ast.unparse(st)[:46]}` is control-dependent on a length check against t.capacity", okc,
                    "" if okc else f"stored under {terms}: an array longer than the capacity (or of the wrong fixed length) is accepted", am.lineno)
         ok = _raises_value_error_on_other_branch(tree)
